@@ -98,6 +98,23 @@ impl Launcher {
         cmd
     }
 
+    /// The random-source seam: when the shim library has been built, load it into the child and
+    /// give it the seed from which everything the child draws with getrandom(2) is derived.
+    pub fn shim(&self) -> Option<PathBuf> {
+        let p = self.bin_dir.join("libverifrand.so");
+        if p.is_file() && std::env::var("VERIF_NO_SHIM").is_err() {
+            Some(p)
+        } else {
+            None
+        }
+    }
+
+    fn seed_randomness(&self, cmd: &mut Command, rand: u64) {
+        if let Some(p) = self.shim() {
+            cmd.env("LD_PRELOAD", p).env("VERIF_RANDOM_SEED", rand.to_string());
+        }
+    }
+
     /// Spawn `cmd` so that the child starts with an affinity mask of `cpus` CPUs. The mask is put on
     /// the calling thread for the duration of the spawn (a child inherits the mask of the thread that
     /// creates it); this avoids a `pre_exec` hook, which would force a full fork() of the simulator.
@@ -193,6 +210,7 @@ impl Launcher {
             }
         };
         cmd.arg(&script).arg(&log);
+        self.seed_randomness(&mut cmd, session.rand);
         let child = match self.spawn_with_affinity(&mut cmd, session.cpus, rotate) {
             Ok(c) => c,
             Err(e) => return ChildOut { exit: Exit::SpawnFailed { why: e.to_string() }, events: vec![], stdout: String::new(), stderr: String::new() },
@@ -236,7 +254,7 @@ impl Launcher {
 
     /// The real `any` binary; with `inject` = (system call, occurrence, errno) it runs under the ptrace
     /// injector, which makes that one call fail with that errno.
-    pub fn any(&self, xdg: &Paths, work: &Path, args: &[String], extra_env: &[(String, String)], inject: Option<&(String, usize, String)>) -> ChildOut {
+    pub fn any(&self, xdg: &Paths, work: &Path, args: &[String], extra_env: &[(String, String)], inject: Option<&(String, usize, String)>, rand: u64) -> ChildOut {
         let strace_out = work.join("any.strace");
         let mut cmd = match inject {
             None => self.command("any", xdg, work, 1, 0),
@@ -250,6 +268,7 @@ impl Launcher {
         for (k, v) in extra_env {
             cmd.env(k, v);
         }
+        self.seed_randomness(&mut cmd, rand);
         let child = match self.spawn_with_affinity(&mut cmd, 1, 0) {
             Ok(c) => c,
             Err(e) => return ChildOut { exit: Exit::SpawnFailed { why: e.to_string() }, events: vec![], stdout: String::new(), stderr: String::new() },
